@@ -5,6 +5,7 @@ CONSTANTS
   Kind <- K_3rdv_inst_long_inst
   HoldLock = FALSE
   OneShot = FALSE
+  Guarded = TRUE
   Spawned = 3
 INVARIANT Safety
 PROPERTIES EventuallyAllDone NoIdleStarvation
